@@ -2059,14 +2059,18 @@ package analysis
 
 //@ func (s *Spec) paramsAsMap(parameters, res, callmeOnError)
 //@   requires s != nil && res != nil
-//@   modifies map res
+//@   modifies map res, ghost cbCalled
 //@   panics when callmeOnError == nil
+//@   ensures allResolve(s, parameters) ==> cbCalled == old(cbCalled)
+//@   ensures callmeOnError != nil && !allResolve(s, parameters) ==> cbCalled
 //@   ensures forall k in dom(res) :: (old(k in dom(res)) && res[k] == old(res[k])) || (exists i in 0..len(parameters) :: entryFor(s, parameters[i], k, res[k]))
 //@   ensures forall k string :: old(k in dom(res)) ==> k in dom(res)
 //@   ensures allResolve(s, parameters) ==> forall i in 0..len(parameters) :: mapKeyFromParam(effParam(s, parameters[i])) in dom(res) && (exists j in i..len(parameters) :: res[mapKeyFromParam(effParam(s, parameters[i]))] == effParam(s, parameters[j]) && mapKeyFromParam(effParam(s, parameters[j])) == mapKeyFromParam(effParam(s, parameters[i])))
 //@   ensures allResolve(s, parameters) ==> forall k in dom(res) :: old(k in dom(res)) && res[k] == old(res[k]) || (exists i in 0..len(parameters) :: k == mapKeyFromParam(effParam(s, parameters[i])))
-//@   loop 1: modifies map res
+//@   loop 1: modifies map res, ghost cbCalled
 //@   loop 1: invariant old(callmeOnError) != nil ==> callmeOnError == old(callmeOnError)
+//@   loop 1: invariant (forall j in 0..idx :: resolvesOK(s, parameters[j])) ==> cbCalled == old(cbCalled)
+//@   loop 1: invariant old(callmeOnError) != nil && !(forall j in 0..idx :: resolvesOK(s, parameters[j])) ==> cbCalled
 //@   loop 1: invariant forall k in dom(res) :: (old(k in dom(res)) && res[k] == old(res[k])) || (exists i in 0..idx :: entryFor(s, parameters[i], k, res[k]))
 //@   loop 1: invariant forall k string :: old(k in dom(res)) ==> k in dom(res)
 //@   loop 1: invariant allResolve(s, parameters) ==> forall i in 0..idx :: mapKeyFromParam(effParam(s, parameters[i])) in dom(res) && (exists j in i..idx :: res[mapKeyFromParam(effParam(s, parameters[i]))] == effParam(s, parameters[j]) && mapKeyFromParam(effParam(s, parameters[j])) == mapKeyFromParam(effParam(s, parameters[i])))
@@ -2077,8 +2081,11 @@ package analysis
 
 //@ func (s *Spec) SafeParamsFor(method, path, callmeOnError)
 //@   requires s != nil && s.spec != nil && wfOps(s)
-//@   modifies nothing
+//@   modifies ghost cbCalled
 //@   panics when callmeOnError == nil
+//@   ensures noOp(s, method, path) ==> cbCalled == old(cbCalled)
+//@   ensures !noOp(s, method, path) && allResolve(s, docPaths(s)[path].Parameters) && allResolve(s, opAtM(docPaths(s)[path], strings.ToUpper(method)).Parameters) ==> cbCalled == old(cbCalled)
+//@   ensures callmeOnError != nil && !noOp(s, method, path) && !(allResolve(s, docPaths(s)[path].Parameters) && allResolve(s, opAtM(docPaths(s)[path], strings.ToUpper(method)).Parameters)) ==> cbCalled
 //@   ensures result != nil && fresh(result)
 //@   ensures noOp(s, method, path) ==> len(result) == 0
 //@   ensures !noOp(s, method, path) ==> forall k in dom(result) :: fromLists(s, docPaths(s)[path].Parameters, opAtM(docPaths(s)[path], strings.ToUpper(method)).Parameters, k, result[k])
